@@ -330,3 +330,38 @@ Theorem C19_model_is_source_examine_not_unrepaired :
   src_examine tree_empty_iter 2 <> sres_of_xres (examine false 2 tree_empty_iter).
 Proof. exact src_examine_not_unrepaired. Qed.
 Print Assumptions C19_model_is_source_examine_not_unrepaired.
+
+(* run_next_retrospective_step, the whole function, called with the operator's screen (SInput): it returns
+   (return value, the file-system actions in program order ending in the launch) or raises - SNamed as examine did, or
+   SRaised done why after the actions `done` - exactly as the model's plan says (result_of_plan reads a plan as such a
+   result: PDone = `return False` before anything is touched; a plan ending in a launch = `return True` after it; a plan
+   ending in AFail why = that exception after the three directory actions).  The translated function calls the translated
+   examine; everything it reads from the output directory it reads from the tree as it is at that moment
+   (tree_after f done), in particular the test screen and the thetas are looked for AFTER the job directory has been
+   cleared and re-created. *)
+Theorem C19_model_is_source_run_next_retrospective_step : forall (f : fs) (bs : Z),
+  src_run_next_retrospective_step f SInput bs = result_of_plan Retro bs (plan_of Retro true bs f).
+Proof. exact src_run_next_retro_is_model. Qed.
+Print Assumptions C19_model_is_source_run_next_retrospective_step.
+
+(* run_next_prospective_step, the whole function: the same, its return value is current_plate_idx < batch_size - 1 *)
+Theorem C19_model_is_source_run_next_prospective_step : forall (f : fs) (bs : Z),
+  src_run_next_prospective_step f SInput bs = result_of_plan Prosp bs (plan_of Prosp true bs f).
+Proof. exact src_run_next_prosp_is_model. Qed.
+Print Assumptions C19_model_is_source_run_next_prospective_step.
+
+(* the value handed back to main(): whenever the model's call_returns says that a call returned b (it was not interrupted,
+   the script did not raise, the pipeline's exit status was 0), b is what the translated function returns *)
+Theorem C19_model_is_source_call_returns : forall md bs n f e b,
+  call_returns md bs (snd (attempt md true bs n f e)) = Some b ->
+  exists acts, src_run_next md f bs = SOk (b, acts).
+Proof. exact call_returns_is_source. Qed.
+Print Assumptions C19_model_is_source_call_returns.
+
+(* non-vacuity: on the tree of the refutation witness (batch size 2, steps (0,0), (0,1) complete, iter_1 empty) the translated
+   retrospective step clears and re-creates iter_1/plate_0 and launches it from the advanced screen of (0,1) *)
+Example C19_source_step_on_witness :
+  src_run_next_retrospective_step tree_empty_iter SInput 2
+  = SOk (true, [ARmTree (1, 0); AMkIter 1; AMkPlate (1, 0);
+                ALaunch (1, 0) (LFirst (SFile (0, 1) KAdvanced) (SFile (0, 0) KTraining))])%Z.
+Proof. vm_compute. reflexivity. Qed.
